@@ -30,6 +30,7 @@ type Env struct {
 	infoOverride *types.Info
 	foreign      bool // evaluating another function's or a lemma's clauses: the current function's lets/binders are not in scope
 	globalInit   bool // evaluating a package-level initializer: calls yield unconstrained values
+	recvOverride *Val // interface dispatch: the (unboxed) receiver of the next callSpec, instead of evaluating the receiver expression
 }
 
 func (env *Env) fail(pos token.Pos, format string, args ...interface{}) {
